@@ -421,6 +421,63 @@ func ruleExactExtraction(c *Ctx, rule string) {
 					}
 				}
 			}
+			// ... on every way to a successful return: no path from the conversion to `return r, true` avoids the
+			// outcome "accepted" of a test of that result
+			if examined && call.Parent() == ext {
+				okEdge := map[[2]*ssa.BasicBlock]bool{}
+				for _, r := range *call.Referrers() {
+					ex, isEx := r.(*ssa.Extract)
+					if !isEx || ex.Index != 1 || ex.Referrers() == nil {
+						continue
+					}
+					var conds []ssa.Value
+					conds = append(conds, ex)
+					for _, r2 := range *ex.Referrers() {
+						if u, ok := r2.(*ssa.UnOp); ok && u.Op == token.NOT {
+							conds = append(conds, u)
+						}
+					}
+					for _, b := range ext.Blocks {
+						ifi, ok := b.Instrs[len(b.Instrs)-1].(*ssa.If)
+						if !ok {
+							continue
+						}
+						if ifi.Cond == ssa.Value(ex) {
+							okEdge[[2]*ssa.BasicBlock{b, b.Succs[0]}] = true
+						}
+						for _, cv := range conds[1:] {
+							if ifi.Cond == cv {
+								okEdge[[2]*ssa.BasicBlock{b, b.Succs[1]}] = true
+							}
+						}
+					}
+				}
+				if len(okEdge) > 0 {
+					escaped := ""
+					seenB := map[*ssa.BasicBlock]bool{}
+					var walk func(b *ssa.BasicBlock)
+					walk = func(b *ssa.BasicBlock) {
+						if seenB[b] || escaped != "" {
+							return
+						}
+						seenB[b] = true
+						if ret, ok := b.Instrs[len(b.Instrs)-1].(*ssa.Return); ok && len(ret.Results) == 2 {
+							for _, src := range append(traceSources(ret.Results[1]), ret.Results[1]) {
+								if k, ok := src.(*ssa.Const); ok && k.Value != nil && k.Value.String() == "true" {
+									escaped = c.pos(ret)
+								}
+							}
+						}
+						for _, sc := range b.Succs {
+							if !okEdge[[2]*ssa.BasicBlock{b, sc}] {
+								walk(sc)
+							}
+						}
+					}
+					walk(call.Block())
+					c.R.Check(escaped == "", rule, "extractor:SetString:failure-gives-up", c.pos(call), "every successful return after the conversion lies behind the outcome \"accepted\"", "the extractor can return success (at "+escaped+") after big.Rat.SetString without having found that the text was accepted: the test of its result is tied to another condition (`!isNumber && !ok`), so for a json.Number the result is not looked at, and a number it refuses (1e9999999) is reported as a number with whatever was parsed so far")
+				}
+			}
 			c.R.Check(examined, rule, "extractor:SetString:failure-examined", c.pos(call), "whether big.Rat accepted the number's text is examined", "the number extractor ignores whether big.Rat.SetString accepted the text: for a number it refuses (an exponent beyond its limit) the rational keeps whatever was parsed so far, and 1e9999999 is silently treated as 1 by minimum/maximum, enum and const")
 		}
 		arg := call.Call.Args[1]
